@@ -11,6 +11,7 @@ import ast
 
 from sa import AnalysisError
 from sa.boolnf import equivalent
+from sa.pattern import pmatch
 from sa.astutil import dotted, src, stmt_text, params, arity, find_stmts, calls_in, method_name, walk_no_nested, const, deep_resolved, if_branches
 from sa.guards import facts_at, holds_compare, strip_all, as_compare, decompose
 
@@ -215,6 +216,10 @@ def check_blocks(model, rep):
     the per-block obligations must be established (raise) before the block's data is used."""
     f = model.func('matrix:assemble_block_csr')
     loops = [l for l in ast.walk(f.node) if isinstance(l, ast.For) and isinstance(l.target, ast.Tuple) and len(l.target.elts) == 4 and all(isinstance(e, ast.Name) for e in l.target.elts)]
+    # the loop over the blocks of one block-row: its iterable is the variable of the loop over `blocks`
+    outer = {l.target.id for l in ast.walk(f.node) if isinstance(l, ast.For) and isinstance(l.target, ast.Name) and src(l.iter) == 'blocks'}
+    if len(loops) != 1:
+        loops = [l for l in loops if isinstance(l.iter, ast.Name) and l.iter.id in outer]
     if len(loops) != 1:
         raise AnalysisError('assemble_block_csr: the loop over (values, rowptr, colidx, ncols) blocks was not found')
     loop = loops[0]
@@ -272,6 +277,65 @@ def check_blocks(model, rep):
             ok = False
         rep.ob('R15.9', f.key, f.where(node) if node is not None else f.where(loop), ok, f'{oid} {text}: guard `{src(node)[:70]}` precedes the use of the block' if ok else
                f'{oid} not established per block: {text}; assemble_csr only sees the concatenation, in which the defect is no longer visible, so the input is silently altered instead of rejected', statement=oid)
+
+
+def check_rebased(model, rep, rule='R15.9'):
+    """Every column-index array that assemble_block_csr hands to the gateway is re-based by the width of the blocks to its left, on EVERY route from a
+    collected block to the concatenation (the single-block fast path as well as the row-by-row interleaving): what is appended to the list that is finally
+    concatenated into the column indices must contain both the block's own column indices and the running offset - directly, or through the tuple in
+    which the block was collected."""
+    f = model.func('matrix:assemble_block_csr')
+    ret = [r for r in ast.walk(f.node) if isinstance(r, ast.Return) and isinstance(r.value, ast.Call) and src(r.value.func) == 'assemble_csr']
+    if len(ret) != 1 or len(ret[0].value.args) < 3:
+        raise AnalysisError('assemble_block_csr: the call of the gateway assemble_csr was not found')
+    m = pmatch('numpy.concatenate(L_)', ret[0].value.args[2])
+    if m is None or not isinstance(m['L_'], ast.Name):
+        raise AnalysisError('assemble_block_csr: the column indices handed to assemble_csr are not numpy.concatenate(<list>)')
+    lst = m['L_'].id
+    loops = [l for l in ast.walk(f.node) if isinstance(l, ast.For) and isinstance(l.target, ast.Tuple) and len(l.target.elts) == 4 and all(isinstance(e, ast.Name) for e in l.target.elts)
+             and isinstance(l.iter, ast.Name)]
+    outer = {l.target.id for l in ast.walk(f.node) if isinstance(l, ast.For) and isinstance(l.target, ast.Name) and src(l.iter) == 'blocks'}
+    loops = [l for l in loops if l.iter.id in outer] if len(loops) != 1 else loops
+    if len(loops) != 1:
+        raise AnalysisError('assemble_block_csr: the loop over the blocks of a block-row was not found')
+    cname = loops[0].target.elts[2].id
+    offs = [s_.target.id for s_ in ast.walk(loops[0]) if isinstance(s_, ast.AugAssign) and isinstance(s_.op, ast.Add) and isinstance(s_.target, ast.Name) and src(s_.value) == loops[0].target.elts[3].id]
+    if len(offs) != 1:
+        raise AnalysisError('assemble_block_csr: the running column offset was not found')
+    off = offs[0]
+    # the tuples in which blocks are collected, and the names later bound to their elements by position
+    coll = [c for c in ast.walk(loops[0]) if isinstance(c, ast.Call) and isinstance(c.func, ast.Attribute) and c.func.attr == 'append' and isinstance(c.func.value, ast.Name)
+            and len(c.args) == 1 and isinstance(c.args[0], ast.Tuple)]
+    appends = [c for c in ast.walk(f.node) if isinstance(c, ast.Call) and src(c.func) in (f'{lst}.append', f'{lst}.extend') and len(c.args) == 1]
+    if not appends:
+        raise AnalysisError(f'assemble_block_csr: nothing is appended to `{lst}`')
+    for a in appends:
+        names = {n_.id for n_ in ast.walk(a.args[0]) if isinstance(n_, ast.Name)}
+        # names bound by unpacking a collected tuple (for ... in store / (..), = store) stand for the element at that position
+        resolved = set(names)
+        for c in coll:
+            store = c.func.value.id
+            for t in ast.walk(f.node):
+                tgt = None
+                if isinstance(t, ast.For) and src(t.iter) == store:
+                    tgt = t.target
+                elif isinstance(t, ast.Assign) and src(t.value) == store and isinstance(t.targets[0], ast.Tuple) and len(t.targets[0].elts) == 1:
+                    tgt = t.targets[0].elts[0]
+                if not (isinstance(tgt, ast.Tuple) and len(tgt.elts) == len(c.args[0].elts)):
+                    continue
+                if isinstance(t, ast.For):
+                    in_scope = any(n_ is a for n_ in ast.walk(t))
+                else:   # `(v, r, c), = store`: binds for the statements that follow it in the same block
+                    in_scope = any(t in blk and any(any(n_ is a for n_ in ast.walk(x)) for x in blk[blk.index(t) + 1:])
+                                   for holder in ast.walk(f.node) for blk in (getattr(holder, 'body', None), getattr(holder, 'orelse', None)) if isinstance(blk, list))
+                if in_scope:
+                    for e_t, e_v in zip(tgt.elts, c.args[0].elts):
+                        if isinstance(e_t, ast.Name) and e_t.id in names:
+                            resolved |= {n_.id for n_ in ast.walk(e_v) if isinstance(n_, ast.Name)}
+        ok = cname in resolved and off in resolved
+        rep.ob(rule, f.key, f.where(a), ok, f'`{src(a)[:60]}` carries the block\'s column indices re-based by `{off}`' if ok else
+               f'`{src(a)[:60]}` hands column indices to the gateway that were not re-based by the running offset `{off}`: a block that is the only non-empty one of its block-row '
+               'and does not start at column 0 silently lands at column 0', statement='rebased ' + src(a.args[0])[:40])
 
 
 def check_row_search(model, rep):
@@ -903,6 +967,7 @@ def run(model, rep, tier):
     rep.rule('R15.8', 'COO row compression rejects unsorted / out-of-range rows for every integer dtype')
     check_validation(model, rep)
     check_gateway(model, rep)
+    check_rebased(model, rep)
     check_blocks(model, rep)
     check_row_search(model, rep)
     check_siblings(model, rep)
@@ -914,6 +979,9 @@ def run(model, rep, tier):
     rep.rule('R15.11', 'compress_indices never returns on counts / end points of the row indices alone (= R05.9)')
     from rules import shortcuts
     shortcuts.check(model, rep, 'R15.11', 'numeric:compress_indices', why='the number of stored entries and the first and last row do not determine the row pointers')
+    from rules import round5 as _r5
+    rep.rule('R15.13', 'the transpose is the plain transpose (no conjugation)')
+    _r5.check_transpose_plain(model, rep, 'R15.13')
     rep.rule('R15.12', 'every name loaded in the matrix package resolves (symtable)')
     check_names_resolve(model, rep)
     rep.require('R15.2', 12)
